@@ -95,6 +95,9 @@ class Spec:
         #   pvals: True      every parameter value is replaced by a new one;   method: True   the method is set again;
         #   query: True      an extra query (sample) between the changes
         self.late = kw.pop("late", None) or {}
+        # concat: right-hand sides and global parameter values are given through CONCATENATIONS of symbols
+        # (ocp.set_der(vertcat(x1, x2), vertcat(f1, f2)), ocp.set_value(vertcat(p1, p2), vertcat(v1, v2))), in reversed symbol order
+        self.concat = kw.pop("concat", False)
         # C20: ONE specification fault injected into an otherwise well-posed specification: (kind, position)
         self.fault = kw.pop("fault", None)
         self.der_order = kw.pop("der_order", "declared")    # order of the set_der calls: 'declared' or 'reversed'
@@ -152,7 +155,8 @@ class Spec:
         if isinstance(s, (list, tuple)):
             s = s[i]
         if s == "unknown":
-            return unknown("scale_%s%d" % (key, i), n, 1, positive=True)
+            # der_tag: a stage that re-declares its derivatives with scales of its own (divergent clone)
+            return unknown("scale_%s%s%d" % (key, getattr(self, "der_tag", "") if key == "der" else "", i), n, 1, positive=True)
         return s
 
     def atom(self, a):
@@ -249,6 +253,12 @@ class Spec:
                     (ocp.set_next(x, old[off:off + n]) if self.discrete else ocp.set_der(x, old[off:off + n], scale=self._scale("der", i, n)))
                     off += n
                 self._redeclare_ode = list(reversed(calls)) if self.der_order == "reversed" else calls
+            elif self.concat and len(S["x"]) > 1 and not self.fault and not self.scales.get("der"):
+                order = list(reversed(range(len(S["x"]))))
+                offs = [sum(self.states[:i]) for i in range(len(self.states))]
+                lhs = ca.vertcat(*[S["x"][i] for i in order])
+                val = ca.vertcat(*[rhs[offs[i]:offs[i] + self.states[i]] for i in order])
+                (ocp.set_next if self.discrete else ocp.set_der)(lhs, val)
             else:
                 for call in (reversed(calls) if self.der_order == "reversed" else calls):
                     call()            # the order of the set_der calls is not the order of the state declarations
@@ -270,6 +280,8 @@ class Spec:
                 val = unknown("pval_" + key, positive=(key == "T"))
                 self.pvals[key] = val
                 ocp.set_value(S["p_" + key], val)
+        if self.concat and not self.fault:
+            self._concat_values("pvalc_")
         self._late_ops = []
         if getattr(self, "_redeclare_ode", None):
             self._late_ops.append(lambda: [call() for call in self._redeclare_ode])
@@ -352,6 +364,8 @@ class Spec:
                         self.pvals[(kind, i)] = val
                         ocp.set_value(p, val)
             self._late_ops.append(new_values)
+        if self.late.get("pvals") and self.concat:
+            self._late_ops.append(lambda: self._concat_values("pvalc2_"))
         if self.late.get("method"):
             self._late_ops.append(lambda: ocp.method(self.make_method()))
         # initial guesses
@@ -369,6 +383,19 @@ class Spec:
             ocp.solver(self.solver)
         ocp.method(self.make_method())
         return ocp
+
+    def _concat_values(self, prefix):
+        """new values for ALL column-shaped global parameters in one call, through a concatenation in reversed order"""
+        ps = [(i, p) for i, p in enumerate(self.sym[("p", "")]) if p.shape[1] == 1]
+        if len(ps) < 2:
+            return
+        ps = list(reversed(ps))
+        vals = []
+        for i, p in ps:
+            v = unknown("%s%d" % (prefix, i), p.shape[0], 1)
+            self.pvals[("", i)] = v
+            vals.append(v)
+        self.ocp.set_value(ca.vertcat(*[p for _, p in ps]), ca.vertcat(*vals))
 
     # ---- effective layout with higher-order controls: rockit declares, per control(order=k), k helper STATES (the returned
     # symbol first) and one helper CONTROL, all behind the user's own states / controls, all with the control's scale
@@ -447,3 +474,49 @@ def own_horizon_kw(m, Tk, t0k):
     return dict(method=m, N=2, M=2, degree=2, T=Tk, t0=t0k, params={"": [1]}, ode=E("f", None, ("x", "u", "t", "p")),
                 constraints=[Con(E("ct", 1, ("x", "T", "t0", "t")), "le", 1.0), Con(E("cb", 1, (("at", "tf", "x"), "T", "t0")), "le", 2.0)],
                 objective=[("at_tf", E("Mf", 1, ("x", "T", "t"))), ("value", E("VT", 1, ("T", "t0", "p")))])
+
+
+def build_clones(kw, divergent=False):
+    """a specification declared ONCE as a free-standing template stage and instantiated twice in one master OCP, every clone
+    with parameter values of its own.  divergent: AFTER cloning the second stage gets dynamics of its own (own derivative
+    scales), one more constraint, one more objective term and one more guess.
+    Returns (master, template specification, [specification of clone 0, specification of clone 1])"""
+    from rockit import Ocp
+    tmpl = Spec(**kw)
+    tmpl.build(template=True)
+    master = Ocp()
+    c0, c1 = master.stage(tmpl.ocp), master.stage(tmpl.ocp)
+    b0 = tmpl.bound_to(c0)
+    b1 = tmpl.bound_to(c1)
+    if divergent:
+        nx = sum(tmpl.states)
+        extra_c = Con(E("cx_own", 1, ("x", "u") if tmpl.controls else ("x",)), "le", 1.0)
+        extra_c.scale_value = 1
+        extra_o = ("at_tf", E("Mx_own", 1, ("x", "T")))
+        b1 = tmpl.bound_to(c1, ode=E(tmpl.ode.name + "_own", tmpl.ode.nout, tmpl.ode.deps), der_tag="_own", scales=dict(tmpl.scales, der="unknown"),
+                           constraints=list(tmpl.constraints) + [extra_c], objective=list(tmpl.objective) + [extra_o])
+        rhs = E(b1.ode.name, nx, b1.ode.deps).on(b1.atom)
+        off = 0
+        for i, (x, n) in enumerate(zip(tmpl.sym["x"], tmpl.states)):
+            (c1.set_next(x, rhs[off:off + n]) if tmpl.discrete else c1.set_der(x, rhs[off:off + n], scale=b1._scale("der", i, n)))
+            off += n
+        c1.subject_to(extra_c.relation(extra_c.expr.on(b1.atom)))
+        c1.add_objective(c1.at_tf(extra_o[1].on(b1.atom)))
+        g_own = unknown("guess_own", tmpl.states[0], 1)
+        c1.set_initial(tmpl.sym["x"][0], g_own)
+        b1.initial_realised = list(tmpl.initial_realised) + [(("x", 0), g_own)]
+    for j, (cl, b) in enumerate(((c0, b0), (c1, b1))):
+        pv = {}
+        for kind in ("", "control", "control+"):
+            for q, psym in enumerate(tmpl.sym[("p", kind)]):
+                cols = {"": 1, "control": tmpl.N, "control+": tmpl.N + 1}[kind]
+                val = unknown("clone%d_pval_%s%d" % (j, kind.replace("+", "plus"), q), psym.shape[0], psym.shape[1] * cols)
+                cl.set_value(psym, val)
+                pv[(kind, q)] = val
+        for key in ("T", "t0"):
+            if "p_" + key in tmpl.sym:
+                val = unknown("clone%d_pval_%s" % (j, key), positive=(key == "T"))
+                cl.set_value(tmpl.sym["p_" + key], val)
+                pv[key] = val
+        b.pvals = pv
+    return master, tmpl, [b0, b1]
